@@ -122,6 +122,8 @@ func runC07(r *mc.Run) {
 			add("levels/"+name, nil, func(e *world.EnclaveIdentity) { e.TcbLevels = lsCopy })
 		}
 	}
+	add("levels/empty-list", nil, func(e *world.EnclaveIdentity) { e.TcbLevels = []world.Level{} })
+	add("levels/null", nil, func(e *world.EnclaveIdentity) { e.TcbLevels = nil })
 	for _, v := range []int{0, 7, 9, 0x0800, 0xffff} {
 		v := v
 		add(fmt.Sprintf("isvsvn/report=%#x", v), func(qe []byte) { binary.LittleEndian.PutUint16(qe[258:], uint16(v)) }, nil)
